@@ -68,5 +68,7 @@ Apply(h, handles, c, root, st) ==
              h3 == IF h2.stuck # "" THEN h2 ELSE [h2 EXCEPT !.conn[k].some = TRUE, !.conn[k].obs = g, !.conn[k].live = TRUE]
          IN Res(h3, handles, c)
     [] st.k = "disconnect" ->
-         LET k == st.a IN Res(IF h.conn[k].live THEN Unsub([h EXCEPT !.conn[k].live = FALSE], h.conn[k].obs) ELSE h, handles, c)
+         \* (the connection handle is spent: a later connect() subscribes the source anew)
+         LET k == st.a IN Res(IF h.conn[k].live THEN Unsub([h EXCEPT !.conn[k].live = FALSE, !.conn[k].some = FALSE], h.conn[k].obs)
+                              ELSE [h EXCEPT !.conn[k].some = FALSE], handles, c)
 =============================================================================
